@@ -10,8 +10,7 @@ matcher used by try_files.
 All theorems quantify over ALL byte strings (NUL, `\`, `%`, invalid UTF-8 …), all
 configurations and all filesystems `fs : Bytes → Node`; nothing is bounded.  Containment is
 lexical (`Under`): symlinks, `net/http`'s URL decoding and `http.ServeContent` are outside the
-model.  `Witness.lean` holds the concrete counter-examples: the old listing filter, the need for
-the hypothesis of `listing_omits_hidden`, and glob syntax surviving `globSafeRepl`.
+model.  `Witness.lean` holds the concrete counter-examples: the two earlier listing filters, and glob syntax surviving `globSafeRepl`.
 -/
 import CaddyModel.C07.MatchLemmas
 import CaddyModel.C07.ListingLemmas
@@ -114,7 +113,7 @@ theorem served_path_under_root (fs : FS) (c : Cfg) (path orig p : Bytes) (id : N
     names are the directory's entries filtered by `listingNames` -/
 theorem listed_dir_under_root (fs : FS) (c : Cfg) (path orig p : Bytes) (ns : List Bytes) (hfs : fs [] = .missing)
     (h : (serve fs c path orig).1 = .listing p ns) :
-    UnderS c.rootC p ∧ c.hidden p = false ∧ ∃ es, fs p = .dir es ∧ ns = listingNames c path es := by
+    UnderS c.rootC p ∧ c.hidden p = false ∧ ∃ es, fs p = .dir es ∧ ns = listingNames c p es := by
   have := serve_justified fs c path orig hfs
   rw [h] at this
   exact this
@@ -123,21 +122,18 @@ example : (serve wFS wCfg (str "/a.txt") (str "/a.txt")).1 = .file (str "/srv/a.
 example : (serve wFS wCfg (str "/sub/..\\/../../.././a.txt") (str "/x")).1 = .file (str "/srv/a.txt") 1 := by decide
 example : wFS [] = .missing := by decide
 
-/-- **listing_omits_hidden.** (code as of /repo cfacd08) Every name a listing shows belongs to an
-    entry of the listed directory that is hidden neither as a bare name nor by its path
-    `dir/name`.  Hypotheses, all explicit: the empty name does not exist; the listed directory is
-    the file the request itself mapped to (`hdir` — it fails only when an index name is itself a
-    directory, see `Witness.listing_hypothesis_needed`; the harness checks it per case); entry
-    names are real names (`Normal`: non-empty, no `/`, not `.`/`..`, as `ReadDir` returns them). -/
+/-- **listing_omits_hidden.** Every name a listing shows belongs to an entry of the listed
+    directory that is hidden neither as a bare name nor by its path `dir/name` — for every request,
+    every index configuration (also when an index name that is itself a directory led to the
+    listed directory; the two earlier filters fail there or everywhere, see
+    `Witness.listing_omits_hidden_old_code_fails`) and every entry name.  The only hypothesis:
+    the empty name does not exist. -/
 theorem listing_omits_hidden (fs : FS) (c : Cfg) (path orig dir : Bytes) (names : List Bytes)
-    (hfs : fs [] = .missing) (h : (serve fs c path orig).1 = .listing dir names)
-    (hdir : dir = requestFile c path) :
+    (hfs : fs [] = .missing) (h : (serve fs c path orig).1 = .listing dir names) :
     ∃ es, fs dir = .dir es ∧
-      ∀ n ∈ names, ∃ e ∈ es, n = showEntry e ∧ c.hidden e.name = false ∧
-        (Normal e.name → entryHiddenByPath c dir e = false) := by
+      ∀ n ∈ names, ∃ e ∈ es, n = showEntry e ∧ c.hidden e.name = false ∧ entryHiddenByPath c dir e = false := by
   obtain ⟨hu, _, es, hes, hn⟩ := listed_dir_under_root fs c path orig dir names hfs h
-  have hne : requestFile c path ≠ [] := by
-    rw [← hdir]
+  have hne : dir ≠ [] := by
     rcases hu with hu | ⟨q, _, e⟩
     · exact under_ne_nil hu
     · rw [e]; simp
@@ -148,46 +144,46 @@ theorem listing_omits_hidden (fs : FS) (c : Cfg) (path orig dir : Bytes) (names 
   obtain ⟨e, ⟨he, hh⟩, rfl⟩ := hmem
   simp only [Bool.not_eq_true', Bool.or_eq_false_iff] at hh
   refine ⟨e, he, rfl, hh.1, ?_⟩
-  intro hnorm
   unfold entryHiddenByPath
-  rw [hdir, ← entry_hidden_eq c path e.name hnorm hne]
+  rw [← entry_hidden_eq c dir e.name hne]
   exact hh.2
 
 /-- … and conversely the listing is *exactly* the entries hidden neither way (nothing else is
-    dropped), when all entry names are real names -/
+    dropped) -/
 theorem listing_is_exactly_the_unhidden_entries (fs : FS) (c : Cfg) (path orig dir : Bytes) (names : List Bytes)
-    (hfs : fs [] = .missing) (h : (serve fs c path orig).1 = .listing dir names)
-    (hdir : dir = requestFile c path) :
-    ∃ es, fs dir = .dir es ∧ ((∀ e ∈ es, Normal e.name) →
-      names = (es.filter fun e => !(c.hidden e.name || entryHiddenByPath c dir e)).map showEntry) := by
+    (hfs : fs [] = .missing) (h : (serve fs c path orig).1 = .listing dir names) :
+    ∃ es, fs dir = .dir es ∧
+      names = (es.filter fun e => !(c.hidden e.name || entryHiddenByPath c dir e)).map showEntry := by
   obtain ⟨hu, _, es, hes, hn⟩ := listed_dir_under_root fs c path orig dir names hfs h
-  have hne : requestFile c path ≠ [] := by
-    rw [← hdir]
+  have hne : dir ≠ [] := by
     rcases hu with hu | ⟨q, _, e⟩
     · exact under_ne_nil hu
     · rw [e]; simp
-  refine ⟨es, hes, fun hN => ?_⟩
+  refine ⟨es, hes, ?_⟩
   rw [hn, listingNames]
   congr 1
   apply List.filter_congr
-  intro e he
+  intro e _
   unfold entryHiddenByPath
-  rw [hdir, entry_hidden_eq c path e.name (hN e he) hne]
+  rw [entry_hidden_eq c dir e.name hne]
 
--- a path rule and a component rule both filter the listing now
+-- a path rule and a component rule both filter the listing
 example : (serve wFS wCfg (str "/") (str "/")).1 = .listing (str "/srv") [str "a.txt"] := by decide
 example : (serve wFS { wCfg with hide := [str "secret.txt"] } (str "//./x/..") (str "/")).1
     = .listing (str "/srv") [str "a.txt"] := by decide
-example : str "/srv" = requestFile wCfg (str "/") ∧ wFS [] = .missing ∧ Normal (str "secret.txt") := by decide
+-- also when the listed directory was reached through an index name that is a directory
+example : (serve wFS2 wCfg2 (str "/") (str "/")).1 = .listing (str "/srv/sub") [str "a.txt"] := by decide
 example : entryHiddenByPath wCfg (str "/srv") ⟨str "secret.txt", false⟩ = true := by decide
 
 /-- **otherwise_not_found_or_passthru.** On a filesystem that answers every name with "missing",
     a file or a directory, a request ends in exactly one of: the bytes of a non-hidden file below
-    the root, the listing of a non-hidden directory below the root, the canonical-URI redirect,
-    or — every other request — 404 when pass-thru is off and the next handler when it is on. -/
+    the root (or of its precompressed sidecar, see `sidecar_only_for_servable_file`), the listing
+    of a non-hidden directory below the root, the canonical-URI redirect, or — every other
+    request — 404 when pass-thru is off and the next handler when it is on. -/
 theorem otherwise_not_found_or_passthru (fs : FS) (c : Cfg) (path orig : Bytes) (hfs : fs [] = .missing)
     (hne : NoErrors fs) :
     (∃ p id, (serve fs c path orig).1 = .file p id ∧ UnderS c.rootC p ∧ c.hidden p = false ∧ fs p = .file id) ∨
+    (∃ p id enc, (serve fs c path orig).1 = .sidecar p id enc) ∨
     (∃ p ns, (serve fs c path orig).1 = .listing p ns ∧ UnderS c.rootC p ∧ c.hidden p = false) ∨
     (serve fs c path orig).1 = .redirect ∨
     ((serve fs c path orig).1 = .notFound ∧ c.passThru = false) ∨
@@ -195,10 +191,11 @@ theorem otherwise_not_found_or_passthru (fs : FS) (c : Cfg) (path orig : Bytes) 
   have hj := serve_justified fs c path orig hfs
   cases ho : (serve fs c path orig).1 with
   | file p id => rw [ho] at hj; exact Or.inl ⟨p, id, rfl, hj⟩
-  | listing p ns => rw [ho] at hj; exact Or.inr (Or.inl ⟨p, ns, rfl, hj.1, hj.2.1⟩)
-  | redirect => exact Or.inr (Or.inr (Or.inl rfl))
-  | notFound => rw [ho] at hj; exact Or.inr (Or.inr (Or.inr (Or.inl ⟨rfl, hj⟩)))
-  | passThru => rw [ho] at hj; exact Or.inr (Or.inr (Or.inr (Or.inr ⟨rfl, hj⟩)))
+  | sidecar p id enc => exact Or.inr (Or.inl ⟨p, id, enc, rfl⟩)
+  | listing p ns => rw [ho] at hj; exact Or.inr (Or.inr (Or.inl ⟨p, ns, rfl, hj.1, hj.2.1⟩))
+  | redirect => exact Or.inr (Or.inr (Or.inr (Or.inl rfl)))
+  | notFound => rw [ho] at hj; exact Or.inr (Or.inr (Or.inr (Or.inr (Or.inl ⟨rfl, hj⟩))))
+  | passThru => rw [ho] at hj; exact Or.inr (Or.inr (Or.inr (Or.inr (Or.inr ⟨rfl, hj⟩))))
   | forbidden =>
     rw [ho] at hj; obtain ⟨n, hn⟩ := hj
     rcases hne n with h | ⟨_, h⟩ | ⟨_, h⟩ <;> rw [h] at hn <;> cases hn
@@ -226,12 +223,60 @@ example : (serve wFS wCfg (str "/../etc/passwd") (str "/")).1 = .notFound := by 
 example : (serve wFS { wCfg with passThru := true } (str "/secret.txt") (str "/")).1 = .passThru := by decide
 
 /-- **fs_accesses_contained.** Every name the handler hands to the filesystem is the empty name,
-    a name below the site root, or a `/`-boundary prefix of the requested file (stat'ed only, by
+    a name below the site root, such a name extended by the suffix of a configured precompressor
+    (`SidecarName`), or a `/`-boundary prefix of the requested file (stat'ed only, by
     `mapDirOpenError`, to turn ENOTDIR into not-found). -/
 theorem fs_accesses_contained (fs : FS) (c : Cfg) (path orig : Bytes) (hfs : fs [] = .missing) :
     ∀ n ∈ (serve fs c path orig).2,
-      n = [] ∨ UnderS c.rootC n ∨ SlashPrefix (requestFile c path) n :=
+      n = [] ∨ UnderS c.rootC n ∨ (∃ f, UnderS c.rootC f ∧ SidecarName c f n) ∨
+        SlashPrefix (requestFile c path) n :=
   serve_trace fs c path orig hfs
+
+/-! ## precompressed sidecars -/
+
+/-- **sidecar_only_for_servable_file.** A precompressed sidecar is served only in place of a file
+    that would itself be served: its name is `f ++ suffix` for a configured precompressor whose
+    encoding `AcceptedEncodings` returned, where `f` is below the root, not hidden and an existing
+    file; the bytes are what the filesystem holds under exactly that name.  The sidecar's own name
+    is not tested against the hide list (`hidden_sidecar_is_served` below): hiding `*.gz` keeps the
+    sidecars out of listings and direct requests, not out of content negotiation. -/
+theorem sidecar_only_for_servable_file (fs : FS) (c : Cfg) (path orig p : Bytes) (id : Nat) (enc : Bytes)
+    (hfs : fs [] = .missing) (h : (serve fs c path orig).1 = .sidecar p id enc) :
+    ∃ f suf, p = f ++ suf ∧ (enc, suf) ∈ c.pre ∧ enc ∈ c.accepted ∧
+      UnderS c.rootC f ∧ c.hidden f = false ∧ (∃ id0, fs f = .file id0) ∧ fs p = .file id := by
+  have := serve_justified fs c path orig hfs
+  rw [h] at this
+  exact this
+
+/-- without a configured precompressor, or without an accepted encoding, no sidecar is served -/
+theorem no_sidecar_unless_negotiated (fs : FS) (c : Cfg) (path orig p : Bytes) (id : Nat) (enc : Bytes)
+    (hfs : fs [] = .missing) (h : c.pre = [] ∨ c.accepted = []) : (serve fs c path orig).1 ≠ .sidecar p id enc := by
+  intro hs
+  obtain ⟨_, suf, _, h1, h2, _⟩ := sidecar_only_for_servable_file fs c path orig p id enc hfs hs
+  rcases h with h | h
+  · rw [h] at h1; cases h1
+  · rw [h] at h2; cases h2
+
+/-- `/srv` with `a.txt` and its gzip sidecar -/
+def gzFS : FS := fun n =>
+  if n = str "/srv" then .dir [⟨str "a.txt", false⟩, ⟨str "a.txt.gz", false⟩]
+  else if n = str "/srv/a.txt" then .file 1
+  else if n = str "/srv/a.txt.gz" then .file 2
+  else .missing
+
+def gzCfg : Cfg :=
+  { cwd := str "/w", root := str "/srv", hide := [str "*.gz"], index := [], browse := true, passThru := false,
+    canonical := true, pre := [(str "gzip", str ".gz")], accepted := [str "br", str "gzip"] }
+
+example : (serve gzFS gzCfg (str "/a.txt") (str "/a.txt")).1 = .sidecar (str "/srv/a.txt.gz") 2 (str "gzip") := by decide
+/-- the sidecar matches the hide rule `*.gz`: requested directly it is 404, it is not listed,
+    and it is still what a gzip-accepting client gets for `/a.txt` -/
+theorem hidden_sidecar_is_served :
+    gzCfg.hidden (str "/srv/a.txt.gz") = true ∧
+    (serve gzFS gzCfg (str "/a.txt.gz") (str "/a.txt.gz")).1 = .notFound ∧
+    (serve gzFS gzCfg (str "/") (str "/")).1 = .listing (str "/srv") [str "a.txt"] ∧
+    (serve gzFS gzCfg (str "/a.txt") (str "/a.txt")).1 = .sidecar (str "/srv/a.txt.gz") 2 (str "gzip") := by decide
+example : (serve gzFS { gzCfg with accepted := [] } (str "/a.txt") (str "/a.txt")).1 = .file (str "/srv/a.txt") 1 := by decide
 
 example : (serve wFS wCfg (str "/") (str "/")).2 = [str "/srv", str "/srv"] := by decide
 
